@@ -19,9 +19,8 @@ M = [
     ("C03", "accepted set of an existing key notifies nobody", "src/lib/bo.rs", "                change.opp_id,\n            );\n            self.notify_watchers(change.key.clone(), change.value.clone(), new_version);\n        } else {", "                change.opp_id,\n            );\n        } else {"),
     ("C03", "notification carries the old value", "src/lib/bo.rs", "            self.notify_watchers(change.key.clone(), change.value.clone(), new_version);\n        } else {", "            self.notify_watchers(change.key.clone(), old_version.value.clone(), new_version);\n        } else {"),
     # ---- C08
-    ("C08", "$$token can be removed", "src/lib/bo.rs", "key if key == TOKEN_KEY => Response::Error {", "key if key == ADMIN_DB => Response::Error {"),
+    ("C08", "the protected token key is renamed", "src/lib/bo.rs", "pub const TOKEN_KEY: &'static str = \"$$token\";", "pub const TOKEN_KEY: &'static str = \"$$tokem\";"),
     ("C08", "has_permission lets everybody at $$ keys", "src/lib/security.rs", "    if key.starts_with(SECURY_KEYS_PREFIX) {\n        client.is_admin_auth()", "    if key.starts_with(SECURY_KEYS_PREFIX) {\n        true"),
-    ("C08", "both guards dropped", "src/lib/security.rs", "if key.starts_with(SECURY_KEYS_PREFIX) && !client.is_admin_auth() {", "if key.starts_with(SECURY_KEYS_PREFIX) && !client.is_admin_auth() && false {"),
     # ---- C09
     ("C09", "apply_if_auth inverted", "src/lib/security.rs", "    if auth.load(Ordering::SeqCst) {\n        opp()", "    if !auth.load(Ordering::SeqCst) {\n        opp()"),
     ("C09", "permission check skipped when a key is given", "src/lib/security.rs", "if key == None || has_permission(client, key.unwrap(), db, &permission_required) {", "if key != None || has_permission(client, key.unwrap(), db, &permission_required) {"),
@@ -31,7 +30,7 @@ M = [
     ("C10", "unchecked increment", "src/lib/bo.rs", "let next = match current.checked_add(inc) {\n                        Some(next) => next.to_string(),", "let next = match Some(current + inc) {\n                        Some(next) => next.to_string(),"),
     ("C10", "unchecked version step", "src/lib/bo.rs", "            self.version.saturating_add(1)\n        }", "            self.version + 1\n        }"),
     ("C10", "conflict queue unwrap is back", "src/lib/consensus_ops.rs", "None => (old_value.to_string(), version),", "None => (pendding_conflict.first().unwrap().to_string(), version),"),
-    ("C10", "parser unwrap", "src/lib/parse_request.rs", "            Err(_) => {\n                log::debug!(\"Invalid request Id\");\n                return Err(format!(\"Invalid request Id\"));\n            }\n        },\n        None => {\n            log::debug!(\"Invalid request Id\");\n            return Err(format!(\"Invalid request Id\"));\n        }\n    };\n    let server_name", "            Err(_) => id_str.parse::<u64>().unwrap(),\n        },\n        None => {\n            log::debug!(\"Invalid request Id\");\n            return Err(format!(\"Invalid request Id\"));\n        }\n    };\n    let server_name"),
+    ("C10", "parser unwrap", "src/lib/parse_request.rs", "        Some(id_str) => match id_str.parse::<u64>() {\n            Ok(id) => id,\n            Err(_) => {\n                log::debug!(\"Invalid request Id\");\n                return Err(format!(\"Invalid request Id\"));\n            }\n        },", "        Some(id_str) => id_str.parse::<u64>().unwrap(),"),
     # ---- C12
     ("C12", "no_more_smaller widened", "src/lib/disk_ops.rs", "let no_more_smaller = possible_records <= 1 && (opp_time > since);", "let no_more_smaller = possible_records <= 2 && (opp_time > since);"),
     ("C12", "look-back removed", "src/lib/disk_ops.rs", "while opp_time == since && seek_point >= size_as_u64 {", "while opp_time == since && seek_point >= size_as_u64 && false {"),
